@@ -81,7 +81,9 @@ ENUM_CWD_FIXED = '/srv/a b'
 ENUM_OS_ENVIRON = {'PATH': '/usr/bin:/bin', 'x': 'os x', 'C13_BASE': 'from os.environ'}
 ENUM_MAX_TOKENS = {'quick': 3, 'thorough': 4}
 ENUM_FULL_CWD_UPTO = {'quick': 2, 'thorough': 3}      # all 3 working_dir values for lines up to this length
+ENUM_GLUED_FULL_ENV_UPTO = 3      # glued lines longer than this: only env={'x': 'v w'}, copy_env off
 ENUM_LIVE_LINES = {'quick': 6, 'thorough': 20}
+ENUM_MAX_MINIMISATIONS_PER_SHARD = 150
 
 W_ARGV = 'process.format_args'
 W_SPAWN = 'process.spawn'
@@ -100,6 +102,8 @@ def bounds(tier):
         'shell': [False, True],
         'env': ENUM_ENVS,
         'copy_env': [False, True],
+        'env_x_copy_env': 'full 3 x 2 product, except glued lines of more than %d tokens: env={x: "v w"}, '
+                          'copy_env off only' % ENUM_GLUED_FULL_ENV_UPTO,
         'working_dir': {'values': ENUM_CWDS,
                         'full_product_for_space_separated_lines_up_to_tokens': ENUM_FULL_CWD_UPTO[tier],
                         'otherwise_fixed_to': ENUM_CWD_FIXED},
@@ -123,8 +127,9 @@ def shards(tier):
                 continue
             plen = min(2, L - 1)
             cwds = 'all' if (sep == ' ' and L <= ENUM_FULL_CWD_UPTO[tier]) else 'fixed'
+            envs = 'all' if (sep == ' ' or L <= ENUM_GLUED_FULL_ENV_UPTO) else 'x'
             for prefix in itertools.product(range(_NT), repeat=plen):
-                out.append({'L': L, 'prefix': list(prefix), 'sep': sep, 'cwds': cwds})
+                out.append({'L': L, 'prefix': list(prefix), 'sep': sep, 'cwds': cwds, 'envs': envs})
     out.append({'live': ENUM_LIVE_LINES[tier]})
     return out
 
@@ -159,16 +164,90 @@ def _enum_line_fields(toks, k, form, sep):
 def _enum_cases(shard):
     sep = shard['sep']
     cwds = ENUM_CWDS if shard['cwds'] == 'all' else [ENUM_CWD_FIXED]
+    if shard.get('envs', 'all') == 'all':
+        envcfgs = [(env, copy_env) for env in ENUM_ENVS for copy_env in (False, True)]
+    else:
+        envcfgs = [(ENUM_ENVS[2], False)]
     for toks, k, form in _enum_lines(shard):
         cmd, args = _enum_line_fields(toks, k, form, sep)
         kinds = {'cmd': [ENUM_TOKENS[i][0] for i in toks[:k]], 'args': [ENUM_TOKENS[i][0] for i in toks[k:]],
                  'form': form, 'sep': sep}
         for shell in (False, True):
-            for env in ENUM_ENVS:
-                for copy_env in (False, True):
-                    for wd in cwds:
-                        yield {'cmd': cmd, 'args': args, 'shell': shell, 'env': env, 'copy_env': copy_env,
-                               'working_dir': wd, 'tokens': kinds}
+            for env, copy_env in envcfgs:
+                for wd in cwds:
+                    yield {'cmd': cmd, 'args': args, 'shell': shell, 'env': env, 'copy_env': copy_env,
+                           'working_dir': wd, 'tokens': kinds}
+
+
+_ENUM_KIND_INDEX = dict((name, i) for i, (name, _) in enumerate(ENUM_TOKENS))
+
+
+def _enum_case_from_kinds(cmd_kinds, args_kinds, form, sep, shell, env, copy_env, wd):
+    toks = tuple(_ENUM_KIND_INDEX[k] for k in list(cmd_kinds) + list(args_kinds))
+    cmd, args = _enum_line_fields(toks, len(cmd_kinds), form, sep)
+    return {'cmd': cmd, 'args': args, 'shell': shell, 'env': env, 'copy_env': copy_env, 'working_dir': wd,
+            'tokens': {'cmd': list(cmd_kinds), 'args': list(args_kinds), 'form': form, 'sep': sep}}
+
+
+def _enum_simpler(case):
+    """Candidate simplifications of a generated case, most drastic first (used to minimise a failing input)."""
+    t = case['tokens']
+    ck, ak, form, sep = t['cmd'], t['args'], t['form'], t['sep']
+    cfg = (case['shell'], case['env'], case['copy_env'], case['working_dir'])
+
+    def mk(ck2, ak2, form2=form, sep2=sep, cfg2=cfg):
+        return _enum_case_from_kinds(ck2, ak2, form2, sep2, *cfg2)
+    for i in range(len(ck)):
+        if len(ck) > 1:
+            yield mk(ck[:i] + ck[i + 1:], ak)
+    for i in range(len(ak)):
+        yield mk(ck, ak[:i] + ak[i + 1:])
+    if not ak and form != 'none':
+        yield mk(ck, ak, form2='none')
+    if sep != ' ':
+        yield mk(ck, ak, sep2=' ')
+    shell, env, copy_env, wd = cfg
+    if copy_env:
+        yield mk(ck, ak, cfg2=(shell, env, False, wd))
+    if env:
+        yield mk(ck, ak, cfg2=(shell, {}, copy_env, wd))
+    elif env is not None:
+        yield mk(ck, ak, cfg2=(shell, None, copy_env, wd))
+    if wd != ENUM_CWD_FIXED:
+        yield mk(ck, ak, cfg2=(shell, env, copy_env, ENUM_CWD_FIXED))
+    if shell:
+        yield mk(ck, ak, cfg2=(False, env, copy_env, wd))
+    for i in range(len(ck)):
+        if ck[i] != 'plain':
+            yield mk(ck[:i] + ['plain'] + ck[i + 1:], ak)
+    for i in range(len(ak)):
+        if ak[i] != 'plain':
+            yield mk(ck, ak[:i] + ['plain'] + ak[i + 1:])
+
+
+def _enum_failing(case, clause, where, current_dir):
+    """The first failing verdict of `clause` at `where` for this case, or None (seams must be installed)."""
+    verdicts, skipped = _enum_judge(case, _enum_observe(case), current_dir)
+    for v in verdicts:
+        if v[0] == clause and v[3] == where and not v[1]:
+            return v
+    return None
+
+
+def _enum_minimise(case, verdict, current_dir):
+    """Greedy one-step-at-a-time reduction to a locally minimal input that still fails the same clause at the
+    same site.  Returns (minimal case, its failing verdict)."""
+    clause, where = verdict[0], verdict[3]
+    cur, cur_v = case, verdict
+    for _ in range(40):
+        for cand in _enum_simpler(cur):
+            v = _enum_failing(cand, clause, where, current_dir)
+            if v is not None:
+                cur, cur_v = cand, v
+                break
+        else:
+            break
+    return cur, cur_v
 
 
 # -- seams -----------------------------------------------------------------------------------------
@@ -292,7 +371,8 @@ def _enum_judge(case, observed, current_dir):
         if not case['shell']:
             ok = (isinstance(got, list) and got == expect and all(isinstance(a, str) for a in got)
                   and not call['shell'] and call['executable'] is None)
-            out.append((vclause, ok, 'shape=[%s] wid=%s expected argv %r, process created with %r (shell=%r)'
+            out.append((vclause, ok, None if ok else
+                        'shape=[%s] wid=%s expected argv %r, process created with %r (shell=%r)'
                         % (shape, wid, expect, got, call['shell']), W_ARGV, fp, nonplain))
         else:
             command = got if isinstance(got, str) else (got[0] if isinstance(got, list) and len(got) == 1 else None)
@@ -303,17 +383,20 @@ def _enum_judge(case, observed, current_dir):
                 except ref.Undefined as e:
                     back = 'unreadable: %s' % e
             ok = (back == expect and call['shell'] is True and call['executable'] is None)
-            out.append((vclause, ok, 'shape=[%s] wid=%s expected vector %r, shell command %r reads back as %r '
-                                     '(shell=%r)' % (shape, wid, expect, got, back, call['shell']),
-                        W_ARGV, fp, nonplain))
-        out.append(('C13.cwd', call['cwd'] == exp_cwd,
+            out.append((vclause, ok, None if ok else
+                        'shape=[%s] wid=%s expected vector %r, shell command %r reads back as %r (shell=%r)'
+                        % (shape, wid, expect, got, back, call['shell']), W_ARGV, fp, nonplain))
+        ok = call['cwd'] == exp_cwd
+        out.append(('C13.cwd', ok, None if ok else
                     'shape=[wd=%r] configured working_dir %r (expected cwd %r), process created with cwd=%r'
                     % (case['working_dir'], case['working_dir'], exp_cwd, call['cwd']),
                     W_SPAWN, 'C13.cwd|%r' % (case['working_dir'],), case['working_dir'] is not None))
+        # env=None at the process-creation call means "inherit the daemon's own environment"
         got_env = call['env'] if call['env'] is not None else dict(os.environ)
+        ok = got_env == eff_env
         envshape = 'env=%s copy_env=%d' % ('none' if case['env'] is None else sorted(case['env']),
                                            int(bool(case['copy_env'])))
-        out.append(('C13.env', got_env == eff_env,
+        out.append(('C13.env', ok, None if ok else
                     'shape=[%s] expected environment %r, process created with env=%r'
                     % (envshape, eff_env, call['env']), W_ENV, 'C13.env|' + envshape, bool(eff_env)))
     return out, False
@@ -329,6 +412,8 @@ def run_shard(shard, tier):
     r = EnumResult()
     r.info['skipped_reference_undefined'] = 0
     r.info['process_creation_calls_observed'] = 0
+    r.info['failing_inputs_minimised'] = 0
+    min_cache, reported = {}, set()
     cwd = os.getcwd()
     with _enum_seams():
         for case in _enum_cases(shard):
@@ -338,8 +423,20 @@ def run_shard(shard, tier):
                 r.info['skipped_reference_undefined'] += 1
                 continue
             r.cases += 1
-            for clause, ok, detail, where, fp, nontrivial in verdicts:
-                r.check(clause, ok, detail, where, case, fp=fp, nontrivial=nontrivial)
+            for verdict in verdicts:
+                clause, ok, detail, where, fp, nontrivial = verdict
+                r.ev(clause, nontrivial)
+                if ok:
+                    continue
+                # one witness per root cause: reduce the failing input, fingerprint = shape of the reduced input
+                if fp not in min_cache and len(min_cache) < ENUM_MAX_MINIMISATIONS_PER_SHARD:
+                    mcase, mv = _enum_minimise(case, verdict, cwd)
+                    min_cache[fp] = (mcase, mv[2], mv[4])
+                    r.info['failing_inputs_minimised'] += 1
+                mcase, mdetail, mfp = min_cache.get(fp, (case, detail, fp))
+                if mfp not in reported:
+                    reported.add(mfp)
+                    r.fail(clause, mdetail, where, mcase, mfp)
             calls = [c for rec in observed for c in rec['calls']]
             r.info['process_creation_calls_observed'] += len(calls)
             if _enum_nonplain(case):
@@ -430,14 +527,14 @@ def _enum_live_one(case, d):
             vclause = 'C13.shell_roundtrip' if case['shell'] else 'C13.argv'
             if not new:
                 verdicts.append((vclause, False, 'shape=[%s] no worker created (spawn_process -> %r)' % (shape, res),
-                                 'live:watcher.spawn_process', vclause + '|live|nocall', True))
+                                 'watcher.spawn_process@live', vclause + '|live|nocall', True))
                 continue
             proc = new[0]
             try:
                 proc._worker.wait(30)
             except Exception as e:      # noqa
                 verdicts.append((vclause, False, 'shape=[%s] live worker did not finish: %r' % (shape, e),
-                                 'live:worker', vclause + '|live|hang', True))
+                                 'worker@live', vclause + '|live|hang', True))
                 continue
             expect = ref.argv(cmd, case['args'], ref.variables(proc.wid, eff_env))
             dump_file = expect[3]
@@ -447,21 +544,21 @@ def _enum_live_one(case, d):
             except Exception as e:      # noqa
                 verdicts.append((vclause, False, 'shape=[%s] wid=%s worker left no dump at %s (%s); exit %r'
                                  % (shape, proc.wid, dump_file, e, proc._worker.returncode),
-                                 'live:worker', vclause + '|live|nodump', True))
+                                 'worker@live', vclause + '|live|nodump', True))
                 continue
             os.unlink(dump_file)
             verdicts.append((vclause, seen['argv'] == expect[4:],
                              'shape=[%s] wid=%s expected worker argv %r, real worker saw %r'
-                             % (shape, proc.wid, expect[4:], seen['argv']), 'live:' + W_ARGV,
+                             % (shape, proc.wid, expect[4:], seen['argv']), W_ARGV + '@live',
                              vclause + '|' + shape, True))
             verdicts.append(('C13.cwd', os.path.realpath(seen['cwd']) == os.path.realpath(wd),
                              'shape=[live] configured %r, real worker runs in %r' % (wd, seen['cwd']),
-                             'live:' + W_SPAWN, 'C13.cwd|live', True))
+                             W_SPAWN + '@live', 'C13.cwd|live', True))
             extra = {k: v for k, v in seen['environ'].items() if k not in eff_env}
             missing = {k: v for k, v in eff_env.items() if seen['environ'].get(k) != v}
             ok = not missing and set(extra) <= _ENUM_LIVE_ENV_NOISE
             verdicts.append(('C13.env', ok, 'shape=[live env=%r copy_env=%r] expected %r, real worker has %r'
-                             % (env, case['copy_env'], eff_env, seen['environ']), 'live:' + W_ENV,
+                             % (env, case['copy_env'], eff_env, seen['environ']), W_ENV + '@live',
                              'C13.env|live|%r|%r' % (env, case['copy_env']), True))
     return verdicts
 
